@@ -660,9 +660,26 @@ impl<RW: QueueRW<T>, T> FutInnerRecv<RW, T> {
 
     #[inline(always)]
     pub fn recv(&self) -> Result<T, RecvError> {
-        let rval = self.reader.recv();
-        self.prod_wait.notify_all();
-        rval
+        self.reader.examine_signals();
+        loop {
+            let rval = self.reader.queue.try_recv(&self.reader.reader);
+            // Even a failed attempt may have briefly pinned a slot and made a
+            // concurrent Sink send see the queue as full and park.
+            self.prod_wait.notify_all();
+            match rval {
+                Ok(v) => return Ok(v),
+                Err((_, TryRecvError::Disconnected)) => return Err(RecvError),
+                Err((pt, TryRecvError::Empty)) => {
+                    let count = self.reader.reader.load_count(Relaxed);
+                    unsafe {
+                        self.reader
+                            .queue
+                            .waiter
+                            .wait(count, &*pt, &self.reader.queue.writers);
+                    }
+                }
+            }
+        }
     }
 
     /// Creates a new stream and returns a FutInnerRecv on that stream
@@ -821,6 +838,9 @@ impl<RW: QueueRW<T>, T> Stream for &FutInnerRecv<RW, T> {
                 }
                 Err((_, TryRecvError::Disconnected)) => return Ok(Async::Ready(None)),
                 Err((pt, _)) => {
+                    // The failed attempt may have briefly pinned a slot and made a
+                    // concurrent Sink send see the queue as full and park.
+                    self.prod_wait.notify_all();
                     let count = self.reader.reader.load_count(Relaxed);
                     if unsafe { self.wait.fut_wait(count, &*pt, &self.reader.queue.writers) } {
                         return Ok(Async::NotReady);
